@@ -63,10 +63,9 @@ class BeamSplitter(Component):
         Validates that convention and reflectivity values of the beam splitter
         are valid.
         """
-        # Validate reflectivity
-        if not isinstance(self.reflectivity, Parameter):
-            if not 0 <= self.reflectivity <= 1:
-                raise ValueError("Reflectivity must be in range [0,1].")
+        # Validate reflectivity, using the current value when a Parameter
+        if not 0 <= self._reflectivity <= 1:
+            raise ValueError("Reflectivity must be in range [0,1].")
         # And check beam splitter convention
         all_convs = ["Rx", "H"]
         if self.convention not in all_convs:
